@@ -1,2 +1,2 @@
-/- C04 — theorems are being added. -/
-import DsdVerif.Model.World
+/- C04 — domain complementarity: theorems are in Props/C04Dom.lean. -/
+import DsdVerif.Props.C04Dom
